@@ -160,6 +160,58 @@ class DataAppend:
         return res(OK, touch={m.id: "may"}, target=m)
 
 
+@op("data_append_refused")
+class DataAppendRefused:
+    """append of data that cannot be stored in the array's element type: must raise and leave
+    shape and content as they were (what later reads return is still what was written)."""
+    KINDS = ["text_into_numeric", "bytes_into_numeric", "complex_into_numeric", "nan_into_bool", "none_object",
+             "number_into_text"]
+
+    def gen(self, run, rng):
+        arrs = [a for a in run.enum("array") if a.data.ndim >= 1]
+        if not arrs:
+            return None
+        return {"op": "data_append_refused", "arr": idx(rng), "axis": rng.randrange(4), "what": P.pick(rng, self.KINDS),
+                "via": gen_via(run, rng)}
+
+    def do(self, run, o):
+        arrs = [a for a in run.enum("array") if a.data.ndim >= 1]
+        if not arrs:
+            return res(NOOP)
+        m = arrs[o["arr"] % len(arrs)]
+        ax = o["axis"] % m.data.ndim
+        shp = list(m.data.shape)
+        shp[ax] = 2
+        what = o["what"]
+        kind = "t" if m.is_text else m.data.dtype.kind
+        if what == "text_into_numeric" and kind in "iufb":
+            v = np.full(shp, "x", dtype=object)
+        elif what == "bytes_into_numeric" and kind in "iuf":
+            v = np.full(shp, b"ab", dtype="S2")
+        elif what == "complex_into_numeric" and kind in "iuf":
+            v = np.full(shp, 1 + 2j)
+        elif what == "nan_into_bool" and kind == "b":
+            v = np.full(shp, np.nan)
+        elif what == "none_object" and kind in "iuf":
+            v = np.full(shp, None, dtype=object)
+        elif what == "number_into_text" and kind == "t":
+            v = np.full(shp, 1.5)
+        else:
+            return res(NOOP)
+        if not v.size:
+            return res(NOOP)
+        h = run.R(m, o.get("via", 0))
+        r = run.call(lambda: h.append(v, axis=ax))
+        if r[0] == "ok":
+            # accepted (converted) by HDF5: not a refusal; the model cannot follow the conversion
+            from .ops_refuse import StopRun
+            run.stats["incompatible_append_accepted:" + what] += 1
+            raise StopRun("incompatible append accepted")
+        run.stats["refused:data_append:" + what] += 1
+        check_array(run, m, run.R(m, 0), "data_append_refused:" + what)
+        return res(REFUSED, target=m)
+
+
 @op("data_resize")
 class DataResize:
     def gen(self, run, rng):
